@@ -65,6 +65,7 @@ type Contract struct {
 	Loops        map[int]*LoopSpec
 	NamedLoops   map[string]*LoopSpec
 	RangeNames   map[string]string // source text of a ranged expression -> loop name (loopname directive)
+	LocalNames   map[string]string // alias -> source text of the defining expression (localname directive)
 	Pure         bool
 	MathInts     bool      // int/int64 arithmetic treated as mathematical in this function (stated assumption)
 	AcqAssumes   []*Clause // assumed at every lock acquisition of the function (stated environment assumption)
@@ -471,6 +472,17 @@ func (p *Prog) loadContractFile(path string) error {
 			cur.CallSites[m[1]] = append(cur.CallSites[m[1]], c)
 			pending = append(pending, c)
 			lastClause = c
+		case strings.HasPrefix(line, "localname "):
+			// localname <alias>: := <expr>   -- <alias> names the local variable that is defined by `x := <expr>`
+			// in the function (or in the function enclosing a closure), whatever the variable is called there
+			m := regexp.MustCompile(`^localname\s+(\w+)\s*:\s*:=\s*(.*)$`).FindStringSubmatch(line)
+			if m == nil {
+				return fmt.Errorf("%s:%d: bad localname directive", path, lineNo)
+			}
+			if cur.LocalNames == nil {
+				cur.LocalNames = map[string]string{}
+			}
+			cur.LocalNames[m[1]] = strings.TrimSpace(m[2])
 		case strings.HasPrefix(line, "loopname "):
 			// loopname <name>: range <expr>   -- the for-range statement over <expr> is addressed as "loop <name>:"
 			// (robust against loops being added or removed elsewhere in the function)
